@@ -169,3 +169,100 @@ if __name__ == "__main__":
                 print("  ", h, {k: v for k, v in st.items() if k != "S"}, st.get("S", {}).get("now"),
                       [(e["ty"], e["tm"], e["t"]) for e in st.get("S", {}).get("q", [])],
                       [d["st"] for d in st.get("S", {}).get("ts", [])])
+
+
+# ---------------------------------------------------------------------------
+# Leg R for the simulator: behaviours simulated by TLC on SimMC become decision scripts that are played into the real
+# Simulator (ScriptedScheduler); the resulting traces are validated by SimTrace like any other corpus world.
+
+
+def mc_world(name, consts, script):
+    """MC constants -> world description for harness/worlds.py (one job graph per MC graph, released once)."""
+    tk, gr, init = consts["MCTasks"], consts["MCGraphs"], consts["MCInit"]
+    tname = {t["t"]: "".join(chr(c) for c in t["nk"]).split("@")[0] for t in tk}
+    profiles, graphs = [], []
+    jgs = {}
+    for g in gr:
+        jgs.setdefault(g["jg"], []).append(g)
+    for jg, gl in jgs.items():
+        g0 = gl[0]
+        jobs = []
+        for t in g0["tasks"]:
+            st = tk[t - 1]
+            profiles.append({"name": f"P{len(profiles)}", "strats": [{"dem": s["dem"], "rt": s["rt"], "bs": s["bs"]} for s in st["strats"]]})
+            job = {"name": tname[t], "profile": len(profiles) - 1, "children": [tname[c] for c in st["ch"]],
+                   "cond": st["cond"], "term": st["term"]}
+            if init[t - 1]["prob"] != 1000000:
+                job["prob"] = init[t - 1]["prob"] / 1000000.0
+            jobs.append(job)
+        rel = min(init[t - 1]["rel"] for t in g0["tasks"] if tk[t - 1]["src"])
+        if g0["closed"]:
+            pol = {"type": "closed_loop", "conc": g0["conc"], "n": g0["ninv"], "start": rel}
+        else:
+            pol = {"type": "fixed", "period": 1, "n": 1, "start": rel}
+        graphs.append({"name": jg, "jobs": jobs, "policy": pol, "dv": [0, 0]})
+    fl = consts["MCW"]["fl"]
+    fr = consts["Frontier"]
+    return {
+        "name": f"mc_{name}", "profiles": profiles, "graphs": graphs, "pools": consts["MCW"]["pools"],
+        "sched": {"kind": "scripted", "runtime": consts["SchedRt"], "lookahead": fr["la"], "rtg": fr["rtg"], "retract": fr["retract"],
+                  "script": script},
+        "flags": {k: fl[k] for k in ("frequency", "delay", "at_worker_free", "drop_skipped", "timeout", "variance")},
+        "seed": 1,
+    }
+
+
+def _scripts_of(name, consts, n, depth, sd):
+    import glob
+
+    tk, gr = consts["MCTasks"], consts["MCGraphs"]
+    gname = {g["g"]: g["jg"] for g in gr}
+    # invocation index of a graph inside its job graph (closed loop: J@0, J@1, ...)
+    ginv, seen = {}, {}
+    for g in gr:
+        ginv[g["g"]] = seen.get(g["jg"], 0)
+        seen[g["jg"]] = ginv[g["g"]] + 1
+    tref = {t["t"]: "".join(chr(c) for c in t["nk"]).split("@")[0] + f"@{gname[t['g']]}@{ginv[t['g']]}" for t in tk}
+    out = []
+    with Scratch() as scratch:
+        mod, cfg = mcgen.write_mc(scratch, "SimMC", consts, name=f"MC_SimMC_{name}_sim")
+        base = os.path.join(scratch, "beh")
+        tlc.run_tlc(mod, cfg, workers=1, simulate=f"file={base},num={n}", depth=depth, seed=sd, coverage=False,
+                    java_opts=mcgen.LIB_OPT, timeout=900, allow_timeout=True)
+        for f in sorted(glob.glob(base + "*")):
+            beh = tlc.load_behaviour(f)
+            script = []
+            for (_, a), (_, b) in zip(beh, beh[1:]):
+                Sa, Sb = a["S"], b["S"]
+                if Sa["sch"]["pend"] == 0 and Sb["sch"]["pend"] == 1:
+                    decs = []
+                    for d in Sb["pd"]["decs"]:
+                        t = d["t"]
+                        if d["kind"] == 3:
+                            decs.append({"task": tref[t], "do": "cancel"})
+                        elif not d["placed"]:
+                            decs.append({"task": tref[t], "do": "unplaced"})
+                        else:
+                            strats = tk[t - 1]["strats"]
+                            si = next((i + 1 for i, s in enumerate(strats) if s["rt"] == d["sd"]["rt"] and s["dem"] == d["sd"]["dem"]), 1)
+                            decs.append({"task": tref[t], "do": "place", "pool": d["pool"], "strategy": si, "time": d["tm"]})
+                    script.append({"at": Sb["now"], "decs": decs})
+            if any(e["decs"] for e in script):
+                out.append(script)
+    return out
+
+
+def script_worlds(tier, sd=0):
+    """Worlds whose decision scripts come from TLC-simulated behaviours of SimMC."""
+    n, depth = (10, 60) if tier == "quick" else (400, 90)
+    jobs = [(name, consts, n, depth, sd + i) for i, (name, consts) in enumerate(cfgs("thorough"))]
+    worlds = []
+    for (name, consts, *_), scripts in zip(jobs, parallel(_scripts_of, jobs, procs=6)):
+        seen = set()
+        for sc in scripts:
+            key = repr(sc)
+            if key in seen:
+                continue
+            seen.add(key)
+            worlds.append(mc_world(name, consts, sc))
+    return worlds
